@@ -318,9 +318,96 @@ func placeholders(rep *kit.Report) {
 	rep.Sample(map[string]interface{}{"format": "{>X}\\{method\\}{?q}", "request": "GET /p/v?q=%7Bhost%7D with X: {method}{uri}", "expected": "{method}{uri}{method}{host}"})
 }
 
+// rotation: two sites share one rolling log file (named by absolute path, by a relative path, and by two
+// spellings of the same path). After every request exactly one new line exists, counted over the log file and
+// its rotated backups, and a request that completes after a rotation is found in the current file.
+func rotation(rep *kit.Report, root string) {
+	type rcase struct {
+		Casketfile string `json:"casketfile"`
+		Step       string `json:"step"`
+		Problem    string `json:"problem"`
+	}
+	cwd, _ := os.Getwd()
+	defer os.Chdir(cwd)
+	for vi, names := range [][2]string{{"ABS/rot.log", "ABS/rot.log"}, {"rot.log", "rot.log"}, {"rot.log", "./sub/../rot.log"}, {"ABS/rot.log", "rot.log"}} {
+		dir := filepath.Join(root, fmt.Sprintf("rot%d", vi))
+		os.MkdirAll(filepath.Join(dir, "sub"), 0o755)
+		os.Chdir(dir)
+		for i := range names {
+			names[i] = strings.Replace(names[i], "ABS", dir, 1)
+		}
+		cf := fmt.Sprintf("a.test:8080 {\n\tlog / %s \"{uri}\" {\n\t\trotate_size 1\n\t\trotate_keep 50\n\t}\n\tstatus 204 /\n}\nb.test:8080 {\n\tlog / %s \"{uri}\" {\n\t\trotate_size 1\n\t\trotate_keep 50\n\t}\n\tstatus 204 /\n}\n", names[0], names[1])
+		l, err := kit.Load(cf, filepath.Join(dir, "Casketfile"))
+		if err != nil {
+			rep.Broken("rotation: load: %v\n%s", err, cf)
+		}
+		srv := l.Server("")
+		countAll := func(tok string) (total, current int) {
+			ents, _ := os.ReadDir(dir)
+			for _, e := range ents {
+				if !strings.HasPrefix(e.Name(), "rot") || e.IsDir() {
+					continue
+				}
+				b, _ := os.ReadFile(filepath.Join(dir, e.Name()))
+				n := strings.Count(string(b), tok)
+				total += n
+				if e.Name() == "rot.log" {
+					current += n
+				}
+			}
+			return
+		}
+		files := func() int {
+			ents, _ := os.ReadDir(dir)
+			n := 0
+			for _, e := range ents {
+				if strings.HasPrefix(e.Name(), "rot") && !e.IsDir() {
+					n++
+				}
+			}
+			return n
+		}
+		pad := strings.Repeat("p", 4000)
+		sent := 0
+		send := func(host, tok string) {
+			kit.Serve(srv, kit.Get("GET", "/"+tok+"?"+pad, host))
+			rep.Eval(1)
+			sent++
+		}
+		// fill through site a until the file has been rotated twice, interleaving a request through site b after each rotation
+		rotations, guard := 0, 0
+		for rotations < 2 && guard < 2000 {
+			guard++
+			before := files()
+			tokA := fmt.Sprintf("A-%d-%d-", vi, guard)
+			send("a.test:8080", tokA)
+			if tot, _ := countAll(tokA); tot != 1 {
+				rep.Violation("C20/rotation/line-count", fmt.Sprintf("request %s through site a has %d lines over the log file and its backups", tokA, tot), rcase{cf, tokA, "want exactly one"})
+			}
+			if files() > before {
+				rotations++
+				tokB := fmt.Sprintf("B-%d-%d-", vi, guard)
+				send("b.test:8080", tokB)
+				tot, cur := countAll(tokB)
+				if tot != 1 {
+					rep.Violation("C20/rotation/line-count", fmt.Sprintf("request %s through site b after a rotation has %d lines over the log file and its backups", tokB, tot), rcase{cf, tokB, "want exactly one"})
+				} else if cur != 1 {
+					rep.Violation("C20/rotation/line-written-to-a-rotated-file", fmt.Sprintf("request %s through site b completed after the rotation but its line is not in the current log file", tokB), rcase{cf, tokB, "the other site still writes to the file that was rotated away"})
+				}
+				rep.Class("rotation/line-after-rotation-through-the-other-site")
+			}
+		}
+		if rotations < 2 {
+			rep.Broken("rotation: the log was not rotated after %d requests of 4 KB", guard)
+		}
+		rep.Class("rotation/lines-while-filling")
+		l.Close()
+	}
+}
+
 func main() {
 	rep := kit.NewReport("C20", "exploration",
-		"logging: 6 log layouts (one, two same-scope, disjoint scopes, except, except on the first of two, nested scopes) x every subset of size <=2 of 11 wrapping directives x 14 inner behaviours x 13 paths x GET/POST x Accept-Encoding, new lines of every log file counted after every request and {status}/{size} compared with what the strict writer saw; placeholders: every format of 3 atoms over 20 atoms (vocabulary, header/cookie/query/env lookups, unknown, escaped braces, text) x 9x9 request-supplied values containing placeholder syntax, against a single-pass reference; distinct_nontrivial = outcome classes")
+		"logging: 6 log layouts (one, two same-scope, disjoint scopes, except, except on the first of two, nested scopes) x every subset of size <=2 of 11 wrapping directives x 14 inner behaviours x 13 paths x GET/POST x Accept-Encoding, new lines of every log file counted after every request and {status}/{size} compared with what the strict writer saw; rotation: two sites sharing one rolling file under 4 spellings of its name, every line counted over the file and its backups, lines after a rotation looked for in the current file; placeholders: every format of 3 atoms over 20 atoms (vocabulary, header/cookie/query/env lookups, unknown, escaped braces, text) x 9x9 request-supplied values containing placeholder syntax, against a single-pass reference; distinct_nontrivial = outcome classes")
 	kit.Init()
 	kit.RegisterProbe()
 	kit.Log.Off.Store(true)
@@ -330,6 +417,7 @@ func main() {
 	kit.WriteFile(root, "plain.txt", "PLAIN")
 	logging(rep, root)
 	placeholders(rep)
+	rotation(rep, root)
 	os.RemoveAll(root)
 	rep.Finish()
 }
